@@ -1132,6 +1132,11 @@ Qed.
 (* ------------------------------------------------------------------ lifting to the API helpers *)
 Definition pgs' (s : astate) (h : nat) : list nat := pgs_in (content L_PG (st s)) h.
 
+(* Workspace.fetch_values(data) = Concatenator.fetch_values(data, data.name); hole.surveys *)
+Definition api_read (s : astate) (h d : nat) : option (list val) :=
+  match find_rec d (recs s) with Some rd => sfetch (st s) (a_name rd) h d | None => None end.
+Definition api_surveys (s : astate) (h : nat) : option (list val) := sfetch (st s) L_SURV h 0.
+
 Lemma lput_inv s op s' : lput s op = Ok s' -> lstep (st s) op = Ok (st s') /\ recs s' = recs s /\ objids s' = objids s.
 Proof. unfold lput. destruct (lstep (st s) op); intros H; inversion H; subst; auto. Qed.
 
@@ -2052,6 +2057,95 @@ Proof.
   - simpl. rewrite find_del by exact Hn5. rewrite Nat.eqb_refl. reflexivity.
 Qed.
 
+(* --- AddObjData / SaveHole / RemoveViaGroup *)
+Lemma touch_add_obj s h name did vals s' :
+  WF s -> outcome (api_step s (AddObjData h name did vals)) = Some s' ->
+  In h (objids s) /\ Touch h s s' /\ objids s' = objids s
+  /\ (api_step s (AddObjData h name did vals) = AOk s' -> api_read s' h did = Some vals).
+Proof.
+  intros W Ho. pose proof Ho as Ho0. simpl in Ho. destruct (live_hole s h) eqn:L; simpl in Ho; [|discriminate]. apply live_hole_In in L.
+  split; [exact L|].
+  destruct (Nat.ltb name 100) eqn:En; [discriminate|]. apply Nat.ltb_ge in En.
+  destruct (has_key name (keys_of s h)) eqn:Ek.
+  { inversion Ho; subst. split; [apply touch_refl; exact W|]. split; [reflexivity|].
+    intros Ha. simpl in Ha. destruct (live_hole s' h); simpl in Ha; [|discriminate].
+    destruct (Nat.ltb name 100); [discriminate|]. rewrite Ek in Ha. discriminate. }
+  destruct (fresh s did) eqn:F; simpl in Ho; [|discriminate]. pose proof (fresh_none _ _ F) as Hfd.
+  apply soft_or_hard_out in Ho. apply lput_inv in Ho as (L1 & R1 & O1). unfold with_recs in L1, R1, O1. cbn [st recs objids] in L1, R1, O1.
+  destruct (live_rec s h W L) as (rh & Hfh & Hkh). unfold keys_of in Ek. rewrite Hfh in Ek.
+  pose proof W as (HA & HR & Hrows & HG).
+  set (R2 := upd_rec h (add_key name did) (recs s) ++ [mkrec did KData name [] []]) in *.
+  assert (Hname : 10 <= name) by lia.
+  assert (K2 : forall a b c, keyedR R2 a b c <-> keyedR (recs s) a b c \/ (a = h /\ b = name /\ c = did))
+    by (intros; apply (keyed_R2 (recs s) h did name rh Hfh Hkh Hfd Hname Ek)).
+  assert (WA : WF3 (st s) R2 (objids s)).
+  { split; [exact HA|]. split; [apply WFR_R2 with (rh := rh); assumption|]. split.
+    - eapply WFrows_mono; [|exact Hrows]. intros a b c Hk. apply K2. left. exact Hk.
+    - apply WFpg_R2 with (rh := rh); assumption. }
+  change (upd_rec h (fun r : arec => set_props (a_props r ++ [(name, did)]) r) (recs s) ++ [mkrec did KData name [] []]) with R2 in R1.
+  assert (W' : WF s') by (unfold WF; rewrite R1, O1; eapply wf_put_data; [exact WA | exact Hname | apply K2; right; auto | exact L1]).
+  split; [|split; [exact O1|]].
+  - constructor.
+    + exact W'.
+    + eapply viaD_one; [exact L1 | split; [reflexivity | right; right; exact Hfd]].
+    + intros a b c Hne. rewrite R1, K2. split; [intros [H | (H & _)]; [exact H | contradiction] | auto].
+  - intros _. unfold api_read. rewrite R1.
+    assert (Fd : find_rec did R2 = Some (mkrec did KData name [] [])).
+    { rewrite (find_R2 (recs s) h did name rh Hfh Hfd). rewrite eqb_false_ne by (intros ->; rewrite Hfd in Hfh; discriminate).
+      rewrite Nat.eqb_refl. reflexivity. }
+    rewrite Fd. simpl.
+    destruct (read_your_write (st s) name h did vals HA) as (x & Hx & Hf). rewrite L1 in Hx. inversion Hx; subst. exact Hf.
+Qed.
+
+Lemma touch_save_hole s h s' :
+  WF s -> outcome (api_step s (SaveHole h)) = Some s' -> In h (objids s) /\ Touch h s s' /\ objids s' = objids s.
+Proof.
+  intros W Ho. simpl in Ho. destruct (live_hole s h) eqn:L; simpl in Ho; [|discriminate]. apply live_hole_In in L.
+  apply soft_or_hard_out in Ho.
+  match type of Ho with match lput s ?b with _ => _ end = _ => destruct (lput s b) as [s2|e] eqn:E; [|discriminate] end.
+  apply lput_inv in E as (L1 & R1 & O1). apply lput_inv in Ho as (L2 & R2 & O2).
+  assert (W2 : WF s2).
+  { unfold WF. rewrite R1, O1. destruct (sfetch (st s) L_SURV h 0).
+    - eapply (wf_put_obj (st s) (recs s) (objids s) L_SURV); [exact W | unfold L_SURV; lia | exact L | exact L1].
+    - eapply (wf_del_obj (st s) (recs s) (objids s) L_SURV); [exact W | unfold L_SURV; lia | exact L1]. }
+  assert (W3 : WF s') by (unfold WF; rewrite R2, O2; eapply (wf_del_obj (st s2) (recs s2) (objids s2) L_TRACE); [exact W2 | unfold L_TRACE; lia | exact L2]).
+  split; [exact L|]. split; [|congruence]. constructor.
+  - exact W3.
+  - eapply viaD_trans; [eapply (viaD_one h _ s _ s2 L1); destruct (sfetch (st s) L_SURV h 0); split; try reflexivity; left; reflexivity|].
+    eapply viaD_one; [exact L2 | split; [reflexivity | left; reflexivity]].
+  - intros a b c _. rewrite R2, R1. tauto.
+Qed.
+
+Lemma touch_remove_via_group s h d s' :
+  WF s -> outcome (api_step s (RemoveViaGroup h d)) = Some s' -> In h (objids s) /\ Touch h s s' /\ objids s' = objids s /\ s' = s.
+Proof.
+  intros W Ho. simpl in Ho. destruct (live_hole s h) eqn:L; simpl in Ho; [|discriminate]. apply live_hole_In in L.
+  destruct (negb (owns s h d)); [discriminate|]. inversion Ho; subst. split; [exact L|]. split; [apply touch_refl; exact W | auto].
+Qed.
+
+Lemma touch_set_text s h d vals s' :
+  WF s -> outcome (api_step s (SetText h d vals)) = Some s' ->
+  In h (objids s) /\ Touch h s s' /\ objids s' = objids s
+  /\ (api_step s (SetText h d vals) = AOk s' -> api_read s' h d = Some vals).
+Proof.
+  intros W Ho. pose proof Ho as Ho0. simpl in Ho. destruct (live_hole s h) eqn:L; simpl in Ho; [|discriminate]. apply live_hole_In in L.
+  destruct (owns s h d) eqn:Eo; simpl in Ho; [|discriminate].
+  destruct (owns_keyed s h d W L Eo) as (lab & Hk).
+  pose proof W as (HA & HR & _). destruct (r_key_rec _ _ HR h lab d Hk) as (rd & Hf & Hkd & Hn). rewrite Hf in Ho.
+  pose proof (r_names _ _ HR d rd Hf Hkd) as Hge. subst lab.
+  split; [exact L|].
+  match type of Ho with outcome (if ?c then _ else _) = _ => destruct c eqn:Ec end.
+  - inversion Ho; subst. split; [apply touch_refl; exact W|]. split; [reflexivity|].
+    intros Ha. simpl in Ha. rewrite Eo in Ha. destruct (live_hole s' h); simpl in Ha; [|discriminate]. rewrite Hf, Ec in Ha. discriminate.
+  - apply soft_or_hard_out in Ho. apply lput_inv in Ho as (L1 & R1 & O1). split; [|split; [exact O1|]].
+    + constructor.
+      * unfold WF. rewrite R1, O1. eapply wf_put_data; eassumption.
+      * eapply viaD_one; [exact L1|]. split; [reflexivity|]. right. left. eauto.
+      * intros a b c _. rewrite R1. tauto.
+    + intros _. unfold api_read. rewrite R1, Hf.
+      destruct (read_your_write (st s) (a_name rd) h d vals HA) as (x & Hx & Hfx). rewrite L1 in Hx. inversion Hx; subst. exact Hfx.
+Qed.
+
 (* --- Reopen: without renamed data sets, loading the children adds no key *)
 Lemma fold_keys_same (R : list arec) (acc : list (nat * nat)) : forall l,
   (forall p, In p l -> exists rd, find_rec (snd p) R = Some rd /\ has_key (a_name rd) acc = true) ->
@@ -2093,6 +2187,10 @@ Proof.
   - apply (t_wf _ _ _ (proj1 (proj2 (touch_remove_pg _ _ _ _ _ W Ho)))).
   - apply (t_wf _ _ _ (proj1 (proj2 (touch_remove_hole _ _ _ _ W Ho)))).
   - rewrite (reopen_same s W) in Ho. inversion Ho; subst. exact W.
+  - apply (t_wf _ _ _ (proj1 (proj2 (touch_add_obj _ _ _ _ _ _ W Ho)))).
+  - apply (t_wf _ _ _ (proj1 (proj2 (touch_save_hole _ _ _ W Ho)))).
+  - apply (t_wf _ _ _ (proj1 (proj2 (touch_remove_via_group _ _ _ _ W Ho)))).
+  - apply (t_wf _ _ _ (proj1 (proj2 (touch_set_text _ _ _ _ _ W Ho)))).
 Qed.
 
 Lemma run_WF ops : forall s0 s,
@@ -2107,10 +2205,6 @@ Proof.
 Qed.
 
 (* ================================================================== API-level consequences *)
-(* Workspace.fetch_values(data) = Concatenator.fetch_values(data, data.name); hole.surveys *)
-Definition api_read (s : astate) (h d : nat) : option (list val) :=
-  match find_rec d (recs s) with Some rd => sfetch (st s) (a_name rd) h d | None => None end.
-Definition api_surveys (s : astate) (h : nat) : option (list val) := sfetch (st s) L_SURV h 0.
 
 Lemma reaches_WF ops s : forallb (fun op => negb (is_rename op)) ops = true -> reaches ops s -> WF s.
 Proof. intros Hq [_ Hlast]. eapply run_WF; [exact Hq | exact WF_init | exact Hlast]. Qed.
@@ -2226,6 +2320,10 @@ Proof.
   - apply (proj1 (proj2 (touch_remove_data _ _ _ _ _ W Ho))).
   - apply (proj1 (proj2 (touch_remove_pg _ _ _ _ _ W Ho))).
   - apply (proj1 (proj2 (touch_remove_hole _ _ _ _ W Ho))).
+  - apply (proj1 (proj2 (touch_add_obj _ _ _ _ _ _ W Ho))).
+  - apply (proj1 (proj2 (touch_save_hole _ _ _ W Ho))).
+  - apply (proj1 (proj2 (touch_remove_via_group _ _ _ _ W Ho))).
+  - apply (proj1 (proj2 (touch_set_text _ _ _ _ _ W Ho))).
 Qed.
 
 Lemma touch_isolation s h s' h' lab d :
